@@ -1455,6 +1455,15 @@ def rule_X4(F, R, clauses=('parse', 'order', 'model', 'retain', 'export', 'vars'
                 prints = calls_in(e['then'], 'std::io::_print')
                 okc = len(sorts) == 1 and sorts_ascending_by_id(sorts[0], binc)
                 ok = okc and bool(src) and bool(prints)
+                # ... one name per line: each name is written with a line end after it (names run together cannot be read back as an ordering)
+                if ok:
+                    import engine_u as _eu
+                    for pr_ in prints:
+                        tm_ = [y for y in walk(pr_) if y['k'] == 'Literal' and y.get('lit') == 'ByteStr']
+                        if tm_:
+                            try: txt_ = _eu.decode_template(tm_[0]['value'])
+                            except Exception: txt_ = None
+                            if txt_ is not None and '{}' in txt_ and not txt_.endswith(('\n', ' ', '\t')): ok = False
         R.count('X4:export-ordering'); R.obligation(ok, 'X4 export')
         if not ok: R.violation('rsbdd::main / X4 / -r', 'X4', '-r must print input_parsed.vars sorted ascending by id')
     if 'vars' in clauses:
